@@ -369,7 +369,7 @@ class C13(Prop):
                  ("add", f(1.5), f(-1.5)), ("mul", f(0.0), f(5.0)), ("td", f(0.5e-6)), ("td", f(1.5e-6)),
                  ("td", f(2.5e-6)), ("td", f(-0.5e-6)), ("td", f(-1.5e-6)), ("td", f(0.9999995)), ("td", f(1.9999995)),
                  ("td", f(-1.9999995)), ("td", f(5e-324)), ("td", f(8796093.022208)), ("dec", 2250741852732000),
-                 ("dec", 0), ("dec", 4294967295999999), ("dec", 2**32 * M - 1), ("dec", 999999), ("dec", 1), ("tot", D43), ("tot", D43 - 1), ("tot", 1), ("tot", 0),
+                 ("dec", 0), ("dec", -1), ("dec", -999999), ("dec", -1000000), ("dec", -1800000000), ("dec", -4294967295999999), ("dec", -2250741852732000), ("dec", 4294967295999999), ("dec", 2**32 * M - 1), ("dec", 999999), ("dec", 1), ("tot", D43), ("tot", D43 - 1), ("tot", 1), ("tot", 0),
                  ("tot", -1), ("ms", 999999), ("ms", 0), ("ms", 1000), ("ms", 999)]
         for c in fixed:
             out.append({"k": "fl", "op": c[0], "a": c[1], "b": c[2] if len(c) > 2 else None})
@@ -435,6 +435,9 @@ class C13(Prop):
                 out.append({"k": "fl", "op": "td", "a": f(x), "b": None})
             elif op == "dec":
                 m = rng.choice([rng.randint(0, 2**32 * M - 1), rng.randint(0, T_MAX), rng.randint(0, 2**32 - 1) * M + rng.choice([0, 1, 999999, 500000])])
+                if rng.random() < 0.35:
+                    # readings before the epoch (the decoder mirrors them): down to -2^32 s, and the first hours before 1970
+                    m = -rng.choice([m, rng.randint(1, 14 * 3600 * M), rng.randint(0, 50000) * M + rng.choice([1, 499999, 500000, 500001, 999999])])
                 out.append({"k": "fl", "op": "dec", "a": m, "b": None})
             elif op == "tot":
                 out.append({"k": "fl", "op": "tot", "a": rng.choice([rng.randint(0, D43), rng.randint(-D43, 0), rng.randint(0, 2**60)]), "b": None})
@@ -800,7 +803,7 @@ class C13(Prop):
                 return f"timedelta(seconds={float.fromhex(a)!r}) = {out} µs"
             return None
         if op == "dec":
-            if 0 <= a < 2**32 * M and out != a:
+            if -2**32 * M < a < 2**32 * M and out != a:
                 return f"fromtimestamp({a}/1e6) = {out} µs"
             return None
         if op == "ms":
